@@ -40,7 +40,7 @@ CBMC_BASE = ["--unwinding-assertions", "--pointer-overflow-check", "--signed-ove
              "--object-bits", "11"]
 
 
-MODEL_UNWIND = ["note_edges.0:17", "verif_all_free.0:17", "verif_locks_reset.0:17", "g_array_append_vals.0:6", "g_array_append_vals.1:260", "g_array_append_vals.2:260", "g_array_remove_range.0:260",
+MODEL_UNWIND = ["note_edges.0:17", "note_edges_mode.0:17", "verif_all_free.0:17", "verif_locks_reset.0:17", "g_array_append_vals.0:260", "g_array_append_vals.1:260", "g_array_append_vals.2:260", "g_array_remove_range.0:260",
                 "verif_locks_reset.1:17"]
 
 
